@@ -371,7 +371,7 @@ def check_bez(V, c, pts, ends, qs, sph):
             continue     # foot at an end of the trench: outside the quantifier
         # near field = the query point is no farther from the curve than 1.5 x the chord of the segment holding the foot;
         # beyond that the closest-point problem has several local minima (inside the evolute) and gets its own key
-        field = 'near-field' if bd <= 1.0 * chords[bi] else 'far-field(distance>segment-length)'
+        field = 'near-field' if bd <= 0.5 * chords[bi] else 'far-field(distance>half-segment-length)'
         if n == 2:
             # a two point trench is the cubic p0 + t^3 (p1 - p0): its derivative vanishes at the first coordinate, where the
             # solver starts when the chord projection of the point (in the x/y resp. lon/lat plane) is <= 0
@@ -393,9 +393,10 @@ def check_bez(V, c, pts, ends, qs, sph):
             own = 2.0 * math.asin(min(1.0, math.sqrt(sl * sl + math.cos(py) * math.cos(q[1]) * so * so)))
         else:
             own = math.hypot(px - q[0], py - q[1])
-        # relative 1e-6 of the distance, plus an absolute floor of 1e-8 of the trench length (1 cm per 1000 km): for a point
-        # almost on the curve the excess is first order in the foot error, which the solver's stop rule does not push below that
-        tol = 1e-6 * bd + 1e-8 * sum(chords)
+        # relative 1e-6 of the distance, plus an absolute floor of 1e-6 of the trench length (1 m per 1000 km): for a point
+        # almost on the curve the excess is first order in the foot error, and the solver's stop rule (parameter update < 1e-4,
+        # quadratic convergence) leaves foot errors of up to ~1e-7 of the length (observed: 4 cm on a 611 km trench)
+        tol = 1e-6 * bd + 1e-6 * sum(chords)
         if own > bd + tol:
             V.violation('bezier:closer-curve-point-exists:%s:%s' % ('spherical' if sph else 'cartesian', field), dict(detail, returned_point_distance=own, brute_min=bd, excess=own - bd))
         if not sph and abs(abs(dist) - own) > 1e-9 * scale + 1e-9 * own:
